@@ -28,16 +28,16 @@ type c16Op struct {
 }
 
 type C16Case struct {
-	Backend  string         `json:"backend"` // cache | sqlite
-	Cap      int            `json:"cap"`
-	Events   []cacheEv      `json:"events"`
-	Prefill  []int          `json:"prefill"`
-	Sessions [][]c16Op      `json:"sessions"`
-	Probes   [][]simrt.FilterSpec `json:"probes"` // dump/restore probes
-	BulkNum  int            `json:"bulk_num,omitempty"`
-	FailQuery int           `json:"fail_query,omitempty"` // sqlite: the k-th query of the sessions fails with an I/O error (0: none)
-	Seed     uint32         `json:"xxhash_seed,omitempty"`
-	Sched    simrt.Schedule `json:"sched"`
+	Backend   string               `json:"backend"` // cache | sqlite
+	Cap       int                  `json:"cap"`
+	Events    []cacheEv            `json:"events"`
+	Prefill   []int                `json:"prefill"`
+	Sessions  [][]c16Op            `json:"sessions"`
+	Probes    [][]simrt.FilterSpec `json:"probes"` // dump/restore probes
+	BulkNum   int                  `json:"bulk_num,omitempty"`
+	FailQuery int                  `json:"fail_query,omitempty"` // sqlite: the k-th query of the sessions fails with an I/O error (0: none)
+	Seed      uint32               `json:"xxhash_seed,omitempty"`
+	Sched     simrt.Schedule       `json:"sched"`
 }
 
 type c16Engine struct{}
